@@ -407,6 +407,11 @@ func (app *App) stateManager() appState {
 		}
 		return stateManager
 	}
+	if clusterState[master] == nil || clusterStateDcs[master] == nil {
+		// e.g. a dead master was removed with "mysync host remove" before any failover
+		app.logger.Error().Msgf("master %s is not a registered host, can not manage the cluster until it is registered again", master)
+		return stateManager
+	}
 
 	// activeNodes are master + alive running replicas
 	activeNodes, err := app.GetActiveNodes()
